@@ -3,6 +3,7 @@ MODULES = [
     "c01_single",
     "c01_compound",
     "c02_single",
+    "c02_compound",
     "c15_tables",
     "c16_bins",
 ]
